@@ -20,6 +20,16 @@ def run(ctx):
                 ops = readcheck.out_of_range_ops(rng, fi, 2 if ctx.quick else 5) + readcheck.in_range_ops(rng, fi, 1)
                 ops += [('hdr', int(t)) for t in rng.integers(0, fi.tracecount, size=2)]
                 readcheck.check_ops(ctx, model, s, ops, props=('C14', 'C02'))
+                # the same header ordinals again on a reader that has first fetched whole tracefield arrays (and, once,
+                # all headers): bounds must not depend on what the reader has cached
+                hops = [o for o in ops if o[0] == 'hdr']
+                if fi.arrays and hops:
+                    s.cold()
+                    for f_ in sorted(fi.arrays):
+                        s.run(('tfv', f_), cold=False)
+                    readcheck.check_ops(ctx, None, s, hops, props=('C14', 'C02'), cold=False, tag='after-tracefield-prefetch')
+                    s.run(hops[-1], cold=False)
+                    readcheck.check_ops(ctx, None, s, hops, props=('C14', 'C02'), cold=False, tag='after-header-read')
             finally:
                 s.close()
     finally:
